@@ -6,7 +6,7 @@
    sequence of allocation failures). *)
 From Coq Require Import NArith Arith List Bool.
 Import ListNotations.
-Require Import UV.C03.Model UV.C03.Inv UV.C03.Proofs UV.C03.Lost UV.C03.Fits.
+Require Import UV.C03.Model UV.C03.Inv UV.C03.Proofs UV.C03.Lost UV.C03.Fits UV.C03.Progress.
 
 (* The invariant (UV.C03.Inv.Inv) holds in every reachable state:  for every thread t
      file t ++ contents of (writer's head ++ writer's bufs ++ t's part of buf_write_list ++
@@ -27,6 +27,17 @@ Theorem C03_final : forall c nw s, reach c nw s -> finished s = true ->
   forall t, file s t = emitted s t /\ bytes_of (file s t) = bytes_of (emitted s t).
 Proof. exact final_exact. Qed.
 Print Assumptions C03_final.
+
+(* ... and that situation can always be reached: from EVERY reachable state (whatever the schedule was, wherever
+   the buffers are: FIFO, shmem_list, buf_write_list, a writer's lists, half-way through a write) recorder steps
+   alone - drain the FIFO, stop, let the writers run out, join, flush - lead to a finished state in which every
+   file is exactly what its thread had emitted.  No reachable state has data stuck anywhere.
+   (rl l = l is one of M_msg, W_pick, W_write, W_release, W_splice, M_stop, M_join, M_flush1, M_rem1.) *)
+Theorem C03_can_finish : forall c nw s, reach c nw s ->
+  exists ls s', Forall rl ls /\ run c s ls = Some s' /\ finished s' = true /\
+                forall t, file s' t = emitted s t /\ bytes_of (file s' t) = bytes_of (emitted s t).
+Proof. exact can_finish. Qed.
+Print Assumptions C03_can_finish.
 
 (* At every moment the file is a prefix of the thread's output that ends at a record boundary. *)
 Theorem C03_whole_records : forall c nw s t, reach c nw s ->
